@@ -101,6 +101,8 @@ static void check_float(Ctx& c, float x, uint64_t& nchecked) {
     if (m30 == 0 || m45 == 0) {
       if (bits_of(s) != bits_of((float)ts) && !(ts == 0 && s == 0)) c.viol("oracle:C16/f32/sind-exact-30-45", K, J().u("bits", xb).f("x", x).f("got", s).f("want", (float)ts));
       if (bits_of(co) != bits_of((float)tc) && !(tc == 0 && co == 0)) c.viol("oracle:C16/f32/cosd-exact-30-45", K, J().u("bits", xb).f("x", x).f("got", co).f("want", (float)tc));
+      if ((bits_of(s2) != bits_of((float)ts) && !(ts == 0 && s2 == 0)) || (bits_of(c2) != bits_of((float)tc) && !(tc == 0 && c2 == 0)))
+        c.viol("oracle:C16/f32/sincosd-exact-30-45", K, J().u("bits", xb).f("x", x).f("sin", s2).f("cos", c2));
       c.event("f32 multiples of 30/45 checked for correct rounding");
     }
   }
@@ -216,7 +218,12 @@ static void sec_dbl1(Ctx& c, uint64_t) {
       c.event("f64 multiples of 30/45 checked for correct rounding");
       if (bits_of(s) != bits_of((double)ts) && !(ts == 0 && s == 0)) c.viol("oracle:C16/f64/sind-exact-30-45", cls, J().f("x", x).f("got", s).f("want", (double)ts));
       if (bits_of(co) != bits_of((double)tc) && !(tc == 0 && co == 0)) c.viol("oracle:C16/f64/cosd-exact-30-45", cls, J().f("x", x).f("got", co).f("want", (double)tc));
+      // the same guarantee for the combined routine
+      if ((bits_of(s2) != bits_of((double)ts) && !(ts == 0 && s2 == 0)) || (bits_of(c2) != bits_of((double)tc) && !(tc == 0 && c2 == 0)))
+        c.viol("oracle:C16/f64/sincosd-exact-30-45", cls, J().f("x", x).f("sin", s2).f("cos", c2).f("want_sin", (double)ts).f("want_cos", (double)tc));
     }
+    // sincosd and sind/cosd are the same function of x: bit-identical results
+    if (bits_of(s2) != bits_of(s) || bits_of(c2) != bits_of(co)) c.viol("law:C16/f64/sincosd-differs-from-sind-cosd", cls, J().f("x", x).f("sind", s).f("sincosd_sin", s2).f("cosd", co).f("sincosd_cos", c2));
   }
   {
     double sm = Math::sind(-x), cm = Math::cosd(-x), tm = Math::tand(-x), s3, c3; Math::sincosd(-x, s3, c3);
@@ -394,6 +401,17 @@ static void sec_ld1(Ctx& c, uint64_t) {
   // mpfr_remquo returns only the low bits of the quotient with the quotient's sign; & 3 on the two's complement is right for negatives too
   double em = std::max(std::max(err(s, S), err(co, C)), std::max(err(s2, S), err(c2, C)));
   c.obs("f80 sind/cosd/sincosd err [ulp]", em, J().f("x_hi", xd));
+  {
+    ref::MP m45(300), r45(300), m30(300), r30(300); m45.set(45); m30.set(30);
+    mpfr_remainder(r45.v, mx.v, m45.v, MPFR_RNDN); mpfr_remainder(r30.v, mx.v, m30.v, MPFR_RNDN);
+    if (r45.zero() || r30.zero()) {
+      c.event("f80 multiples of 30/45 checked for correct rounding");
+      long double ws = S.ld(), wc = C.ld();
+      auto eq = [](long double a, long double b) { return a == b || (a == 0 && b == 0) || std::fabs(b) < 1e-4000L && a == 0; };
+      if (!(eq(s, ws) && eq(co, wc) && eq(s2, ws) && eq(c2, wc)))
+        c.viol("oracle:C16/f80/sincos-exact-30-45", cls, J().f("x_hi", xd).f("sind", (double)s).f("cosd", (double)co).f("sincosd_sin", (double)s2).f("sincosd_cos", (double)c2));
+    }
+  }
   if (em > TOL_SINCOS) c.viol("oracle:C16/f80/sincos-accuracy", cls, J().f("x_hi", xd).f("x_lo", (double)(x - xd)).f("err_ulp", em));
   // AngNormalize exact
   ref::MP m360(300), rr(300); m360.set(360); mpfr_remainder(rr.v, mx.v, m360.v, MPFR_RNDN);
